@@ -22,6 +22,8 @@ def paths(model, r, mname):
 def is_effect(e):
     if e[0] == "effect":
         return ("GRAPH", e[2])
+    if e[0] == "call" and isinstance(e[1], str) and e[1].startswith("self.") and e[1][5:] in EDIT_METHODS:
+        return ("GRAPH", "edit through " + e[1][5:])        # an edit / configuration method called from another one modifies the system
     if e[0] == "store":
         c = classify_store(e[1])
         if c is not None and c[0] in ("REG", "REGALL", "GRAPH", "PARAM", "SELF", "ATTR"):
@@ -382,6 +384,14 @@ def c15_effect_order(model, rep, r):
                     rep.violation("R1", "system.System.%s" % mname, "%s:%d" % (rel, lf.line),
                                   "raises %s at line %d after the system was already modified at line %s (%s): a rejected call leaves a half-applied edit" % (
                                       lf.exc, lf.line, line, describe_effect(eff)), "raise after effect: " + describe_effect(eff))
+            # a call of another edit / configuration method can be rejected (each has a rejecting path): after a modification that is a raise
+            for i, e in enumerate(lf.events):
+                if e[0] == "call" and isinstance(e[1], str) and e[1].startswith("self.") and e[1][5:] in EDIT_METHODS and k is not None and k < i:
+                    eff = lf.events[k]
+                    ok = False
+                    rep.violation("R1", "system.System.%s" % mname, "%s:%d" % (rel, e[4]),
+                                  "calls %s() at line %d after the system was already modified (%s): when that call rejects its arguments, this call raises and leaves a half-applied edit" % (
+                                      e[1][5:], e[4], describe_effect(eff)), "edit call after effect: %s after %s" % (e[1][5:], describe_effect(eff)))
             # warnings.warn raises under an error filter (python -W error): it must not follow a modification either
             for i, e in enumerate(lf.events):
                 if e[0] == "warn" and k is not None and k < i:
